@@ -2820,6 +2820,7 @@ int errBoundMode, double absErr_Bound, double relBoundRatio, double pwRelBoundRa
 {
 	confparams_cpr->dataType = SZ_FLOAT;
 	confparams_cpr->errorBoundMode = errBoundMode; //this is used to print the metadata if needed...
+	confparams_cpr->relBoundRatio = relBoundRatio; //serialized into the parameter block in the range-relative modes
 	if(errBoundMode==PW_REL)
 	{
 		confparams_cpr->pw_relBoundRatio = pwRelBoundRatio;
